@@ -306,6 +306,12 @@ func threadGuards(gs []Guard, depth int) []Guard {
 		}
 		pred := m.Preds[k]
 		extra := threadGuards(domGuards(pred), depth+1)
+		// a boolean merge used as the condition itself has, on the one edge that remains, the value the condition has
+		if ph, isCond := g.Cond.(*ssa.Phi); isCond && ph == phi {
+			if _, isConst := phi.Edges[k].(*ssa.Const); !isConst {
+				extra = append(extra, Guard{Cond: phi.Edges[k], Pos: g.Pos, If: g.If})
+			}
+		}
 		if len(pred.Succs) == 2 && pred.Succs[0] != pred.Succs[1] {
 			idx := 0
 			if pred.Succs[1] == m {
